@@ -778,7 +778,14 @@ fn speed_limit_case(ctx: &mut Ctx, r: &mut Rng, max_steps: usize) {
         ctx.checked("C03", "braking_points_well_formed");
         let dec = pts.windows(2).all(|w| w[1].0 <= w[0].0);
         let tl = pts.iter().all(|p| p.2 <= p.1 && p.2 >= 0.0);
-        if !dec || !tl { ctx.fail("C03", "braking_points_well_formed", "bp", format!("braking points: offsets decreasing={}, 0<=target<=limit={}", dec, tl), input.clone()); }
+        // C03 states target <= limit; that the offsets of the curve points decrease is NOT part of the property (the two
+        // points added after a curve breaks through the posted limit can reach back past the next speed point): observed
+        // and counted — its behavioural consequences are what limit_le_posted / speed_le_limit_in_force / no_panic judge
+        if !dec { ctx.count("train.sl.observe.braking_point_offsets_not_monotone"); }
+        if !tl {
+            let k = pts.windows(2).position(|w| !(w[1].0 <= w[0].0)).unwrap_or(0);
+            ctx.fail("C03", "braking_points_well_formed", "bp", format!("braking points: offsets decreasing={}, 0<=target<=limit={}; {} points, around the first offender (index {}): {:?}; path end {}", dec, tl, pts.len(), k, &pts[k.saturating_sub(2)..(k + 3).min(pts.len())], sim.path_tpc.offset_end().value), input.clone());
+        }
     }
     let mut end = tpc.offset_end().value;
     let ft1000 = 1000.0 * uc::FT.value;
@@ -797,8 +804,9 @@ fn speed_limit_case(ctx: &mut Ctx, r: &mut Rng, max_steps: usize) {
             end = tpc.offset_end().value;
             let (pts, _) = bp_points(&sim.braking_points);
             ctx.checked("C03", "braking_points_well_formed");
-            if !(pts.windows(2).all(|w| w[1].0 <= w[0].0) && pts.iter().all(|p| p.2 <= p.1 && p.2 >= 0.0)) {
-                ctx.fail("C03", "braking_points_well_formed", "bp-mid-run", "braking points after a mid-run extension: offsets not decreasing or target > limit".into(), input.clone());
+            if !pts.windows(2).all(|w| w[1].0 <= w[0].0) { ctx.count("train.sl.observe.braking_point_offsets_not_monotone"); }
+            if !pts.iter().all(|p| p.2 <= p.1 && p.2 >= 0.0) {
+                ctx.fail("C03", "braking_points_well_formed", "bp-mid-run", "braking points after a mid-run extension: target > limit or negative".into(), input.clone());
             }
         }
         let cond = sim.state.offset.value < end - ft1000 || (sim.state.offset.value < end && sim.state.speed.value != 0.0);
@@ -896,6 +904,29 @@ fn speed_limit_case(ctx: &mut Ctx, r: &mut Rng, max_steps: usize) {
         sim.loco_con.step();
         sim.fric_brake.step();
         sim.state.i += 1;
+        // standing still with a zero target outside the stopping window: no later step can change the state; the real
+        // walk() must end with a descriptive error here (it used to loop forever: fix 6e1c770)
+        if pending.is_empty() && pre.state.speed.value == 0.0 && sim.state.speed.value == 0.0 && sim.state.speed_target.value == 0.0 && sim.state.offset.value < end - ft1000 {
+            ctx.count("train.sl.stopped_short_of_window");
+            ctx.checked("C03", "stopped_short_ends_with_error");
+            let mut w = sim.clone();
+            let mut again = sim.clone();
+            let (tx, rx) = std::sync::mpsc::channel();
+            std::thread::spawn(move || { let r = guard(|| w.walk()); let _ = tx.send(r.map(|x| x.map_err(|e| format!("{:?}", e)))); });
+            match rx.recv_timeout(std::time::Duration::from_secs(20)) {
+                Ok(Some(Err(e))) if e.contains("cannot reach its destination") => {}
+                Ok(other) => ctx.fail("C03", "stopped_short_ends_with_error", &format!("step{}", n), format!("train stands still with target 0 at {} (end {}), walk() returned {:?}", sim.state.offset.value, end, other.map(|x| x.map_err(|e| e.chars().take(120).collect::<String>()))), input.clone()),
+                Err(_) => ctx.fail("C03", "stopped_short_ends_with_error", &format!("step{}", n), format!("train stands still with target 0 at {} (end {}): walk() did not return within 20 s", sim.state.offset.value, end), input.clone()),
+            }
+            // and the state really is a fixed point of step()
+            ctx.checked("C03", "stopped_short_is_fixed_point");
+            if let Some(Ok(())) = guard(|| again.step()) {
+                if !(again.state.offset == sim.state.offset && again.state.speed == sim.state.speed && again.state.speed_target == sim.state.speed_target) {
+                    ctx.fail("C03", "stopped_short_is_fixed_point", &format!("step{}", n), "a train standing still with target 0 moved in the next step".into(), input.clone());
+                }
+            }
+            break;
+        }
     }
     // stops inside its path
     let s = sim.state;
@@ -992,12 +1023,140 @@ fn locate_case(ctx: &mut Ctx, r: &mut Rng) {
     }
 }
 
+/// C03, "timed path from dispatch": the real `walk_timed_path` on a generated timed link path (authority arriving early,
+/// on time or late, so that the train also has to stop at the end of its authority and wait); black box — the run is
+/// judged from the saved history (every step saved) against the NETWORK's posted restrictions
+fn timed_path_case(ctx: &mut Ctx, r: &mut Rng) {
+    let Some(bu) = path_case(ctx, r, false, true) else { return; };
+    let len = bu.tp.length.value;
+    let mass_static = bu.tp.towed_mass_static.value + 4.0 * 195000.0;
+    let st0 = TrainState::new(m(len), uc::KG * mass_static, uc::KG * (mass_static * 0.04), uc::KG * (mass_static * 0.6),
+        Some(InitTrainState::new(Some(uc::S * 0.0), Some(m(len)), Some(mps(0.0)))));
+    let mut sim = SpeedLimitTrainSim::valid();
+    sim.path_tpc = PathTpc::new(bu.tp);
+    sim.loco_con = gen_train_consist(r);
+    sim.state = st0;
+    sim.state.dt = uc::S * *r.pick(&[1.0, 1.0, 0.5, 2.0]);
+    sim.fric_brake = FricBrake::new(uc::N * (mass_static * *r.pick(&[0.3, 0.6, 1.0])), uc::S * *r.pick(&[0.0, 30.0, 60.0]), uc::R * 0.5, None, None);
+    let Some(res) = make_res(r, &sim.path_tpc, &st0) else { return; };
+    sim.train_res = res;
+    sim.set_save_interval(Some(1));
+    // first chunk: the links the standing train covers (time before departure), then one link per authority
+    let mut cum = 0.0;
+    let mut k0 = 0usize;
+    // (three times out of four with room for a braking curve behind the standing train, as a dispatcher's first authority has)
+    let room = if r.chance(0.75) { 2500.0 } else { 1.0 };
+    for li in &bu.route { cum += bu.net[li.idx()].length.value; k0 += 1; if cum >= len + room { break; } }
+    let pace = *r.pick(&[0.0, 0.5, 1.0, 2.5]);
+    let mut t = 0.0;
+    let mut timed: Vec<LinkIdxTime> = vec![];
+    for (k, li) in bu.route.iter().enumerate() {
+        if k > 0 && k >= k0 { t += bu.net[bu.route[k - 1].idx()].length.value / 15.0 * pace * *r.pick(&[0.5, 1.0, 1.0, 2.0]); }
+        timed.push(LinkIdxTime { link_idx: *li, time: uc::S * (if k > 0 && k < k0 { -1.0 } else { t }) });
+    }
+    let input = json!({"kind": "walk_timed_path", "network": serde_json::to_value(&bu.net).unwrap(), "train_params": serde_json::to_value(&bu.tp).unwrap(),
+        "timed_path": timed.iter().map(|x| (x.link_idx.idx(), x.time.value)).collect::<Vec<_>>(), "consist": serde_json::to_value(&sim.loco_con).unwrap(),
+        "fric_brake": serde_json::to_value(&sim.fric_brake).unwrap(), "state": serde_json::to_value(&st0).unwrap(), "dt": sim.state.dt.value});
+    ctx.count("train.timed.cases");
+    ctx.count(&format!("train.timed.pace.{}", pace));
+    // a copy of walk_timed_path's loop (public API only) with a step budget decides first whether the walk ends at all;
+    // only then is the real function run, and its final state must equal the copy's
+    let budget = 40000usize;
+    let mut probe = sim.clone();
+    probe.set_save_interval(None);
+    let pr = guard(|| -> anyhow::Result<bool> {
+        let mut n = 0usize;
+        let mut idx_prev = 0;
+        while idx_prev != timed.len() - 1 {
+            let mut idx_next = idx_prev + 1;
+            while idx_next + 1 < timed.len() - 1 && timed[idx_next].time < probe.state.time { idx_next += 1; }
+            let time_extend = timed[idx_next - 1].time;
+            probe.extend_path(&bu.net, &timed[idx_prev..idx_next].iter().map(|x| x.link_idx).collect::<Vec<LinkIdx>>())?;
+            idx_prev = idx_next;
+            while probe.state.time < time_extend { probe.step()?; n += 1; if n > budget { return Ok(false); } }
+        }
+        let end = probe.path_tpc.offset_end().value;
+        let ft1000 = 1000.0 * uc::FT.value;
+        while probe.state.offset.value < end - ft1000 || (probe.state.offset.value < end && probe.state.speed.value != 0.0) {
+            let v0 = probe.state.speed.value;
+            probe.step()?; n += 1; if n > budget { return Ok(false); }
+            if v0 == 0.0 && probe.state.speed.value == 0.0 && probe.state.speed_target.value == 0.0 && probe.state.offset.value < end - ft1000 { anyhow::bail!("stopped short"); }
+        }
+        Ok(true)
+    });
+    if let Some(Ok(false)) = pr {
+        ctx.count("train.timed.no_end_within_budget");
+        ctx.checked("C03", "comes_to_rest_within_budget");
+        ctx.fail("C03", "comes_to_rest_within_budget", "walk_timed_path", format!("after {} steps the walk has neither ended nor failed: offset {} of {} speed {} time {}; limit in force {} target {} res_net {} N, pwr_whl_out {} W, consist pwr_out_max {} W, train length {}", budget, probe.state.offset.value, probe.path_tpc.offset_end().value, probe.state.speed.value, probe.state.time.value,
+            probe.state.speed_limit.value, probe.state.speed_target.value, probe.state.res_net().value, probe.state.pwr_whl_out.value, probe.loco_con.state.pwr_out_max.value, probe.state.length.value), input.clone());
+        return;
+    }
+    let res = guard(|| sim.walk_timed_path(&bu.net, &timed));
+    ctx.checked("C03", "timed_walk_copy_equals_real");
+    let same = match (&pr, &res) {
+        (Some(Ok(true)), Some(Ok(()))) => probe.state == sim.state,
+        (Some(Err(_)), Some(Err(_))) => true,
+        (None, None) => true,
+        _ => false,
+    };
+    if !same { ctx.fail("C03", "timed_walk_copy_equals_real", "walk_timed_path", "the harness copy of walk_timed_path's loop and the real function end differently".into(), input.clone()); }
+    ctx.checked("C03", "no_panic");
+    match &res {
+        None => {
+            ctx.count("train.timed.panic");
+            ctx.fail("C03", "no_panic", "walk_timed_path", format!("walk_timed_path panicked: {}", last_panic()), input.clone());
+        }
+        Some(Err(e)) => {
+            ctx.count("train.timed.err");
+            let t = format!("{:?}", e);
+            ctx.count(&format!("train.timed.err.{}", if t.contains("cannot reach its destination") { "stopped_short_of_window" } else if t.contains("reverse direction smaller") { "braking_curve_reaches_behind_path_start" } else if t.contains("forward direction larger") { "authority_shorter_than_train" } else if t.contains("sufficient power to move") { "no_power_to_move" } else if t.contains("Insufficient braking force") { "insufficient_braking_force" } else if t.contains("must be less than or equal") || t.contains("exceeds") { "powertrain_limit" } else { "other" }));
+            ctx.sample("train.timed.err", json!(format!("{:?}", e).lines().take(6).collect::<Vec<_>>().join(" | ").chars().take(400).collect::<String>()));
+        }
+        Some(Ok(())) => ctx.count("train.timed.ok"),
+    }
+    // the saved history, whatever the outcome (rows written before an error count as well)
+    let h = &sim.history;
+    let n_ext = sim.path_tpc.link_points().len().saturating_sub(1);
+    let posted_list = crate::b_sp::posted_from_network(&bu.net, &bu.route[..n_ext.min(bu.route.len())], &bu.tp);
+    let mut waited = false;
+    for i in 1..h.len() {
+        let (po, ps) = (h.offset[i - 1].value, h.speed[i - 1].value);
+        let (s_lim, s_tgt, s_spd) = (h.speed_limit[i].value, h.speed_target[i].value, h.speed[i].value);
+        let id = format!("row{}", i);
+        let mut chk = |clause: &str, ok: bool, d: String| {
+            ctx.checked("C03", clause);
+            if !ok { ctx.fail("C03", clause, &id, d, input.clone()); }
+        };
+        chk("speed_nonnegative", s_spd >= 0.0, format!("speed {} < 0 at offset {}", s_spd, h.offset[i].value));
+        chk("target_le_limit", s_tgt <= s_lim, format!("target {} > limit {}", s_tgt, s_lim));
+        let posted = crate::b_sp::tightest_at(&posted_list, bu.tp.speed_max.value, po);
+        let profile_here = crate::b_sp::val_at(sim.path_tpc.speed_points(), po).abs();
+        chk("profile_le_posted", profile_here <= posted, format!("speed profile of the path is {} but the network posts {} at {}", profile_here, posted, po));
+        chk("limit_le_posted", s_lim <= posted || profile_here > posted, format!("limit in force {} > posted {} at {}", s_lim, posted, po));
+        chk("speed_le_posted", ps <= posted * (1.0 + 1e-12) || s_lim > posted || profile_here > posted, format!("speed {} > posted limit {} at {} although the limit in force is {}", ps, posted, po, s_lim));
+        chk("speed_le_limit_in_force", ps <= s_lim, format!("speed {} > limit in force {} at {}", ps, s_lim, po));
+        if s_spd == 0.0 && ps == 0.0 && i > 3 { waited = true; }
+    }
+    ctx.count_n("train.timed.rows", h.len() as u64);
+    if waited { ctx.count("train.timed.stood_still_mid_run"); }
+    if matches!(res, Some(Ok(()))) {
+        let s = sim.state;
+        let end = sim.path_tpc.offset_end().value;
+        ctx.checked("C03", "stops_inside_path");
+        if !(s.offset.value <= end + 1e-6 && (s.speed.value == 0.0 || s.offset.value >= end)) {
+            ctx.fail("C03", "stops_inside_path", "end", format!("walk_timed_path ended Ok at offset {} (end {}) with speed {}", s.offset.value, end, s.speed.value), input.clone());
+        }
+        ctx.count(if n_ext >= bu.route.len() - 1 { "train.timed.whole_route_authorised" } else { "train.timed.partial_route" });
+    }
+}
+
 pub fn run(ctx: &mut Ctx, r: &mut Rng, tier: &str) {
-    let (np, nbad, nss, nsl, nidx, steps, slsteps) = if tier == "thorough" { (400, 200, 60, 60, 4000, 400, 3000) } else { (40, 20, 6, 12, 400, 150, 900) };
+    let (np, nbad, nss, nsl, nidx, steps, slsteps) = if tier == "thorough" { (400, 200, 60, 60, 4000, 400, 3000) } else { (40, 20, 6, 12, 400, 150, 1500) };
     for i in 0..np { let mut rr = r.fork(); let _ = path_case(ctx, &mut rr, i % 2 == 0, false); }
     for _ in 0..nbad { let mut rr = r.fork(); bad_route_case(ctx, &mut rr); }
     for _ in 0..nidx { let mut rr = r.fork(); calc_idx_case(ctx, &mut rr); }
     for _ in 0..nidx { let mut rr = r.fork(); locate_case(ctx, &mut rr); }
     for _ in 0..nss { let mut rr = r.fork(); set_speed_case(ctx, &mut rr, steps); }
     for _ in 0..nsl { let mut rr = r.fork(); speed_limit_case(ctx, &mut rr, slsteps); }
+    for _ in 0..(if tier == "thorough" { 80 } else { 10 }) { let mut rr = r.fork(); timed_path_case(ctx, &mut rr); }
 }
